@@ -159,6 +159,12 @@ COMMON_NOTE = ("Theorems are about the hand-written executable HMS machine (coq/
                "recorded run of the real package is replayed through the machine by vm_compute and the machine's state is compared with abs(tree) at every consult of the "
                "global stop condition (counters, flags, structure). Engines, objective values and the verdicts of float-valued filters enter as events. Trusted: Coq kernel, "
                "vm_compute, the recorder (hv/rec.py, patches from outside the package) and the trace->event conversion (hv/machine.py).")
+DRIVER_NOTE = (" Second tie (translator): pyhms/tree.py's run / run_step / run_metaepoch / run_sprout / _do_sprout / active_demes / active_non_leaves and the run_metaepoch methods of the "
+               "seven deme classes are re-translated on every check into programs of an event monad (coq/Gen/GenDriver.v, hv/translate/driver_py.py); Proofs/GenEquivDriver.v proves "
+               "them equal to the big-step driver of Model/Driver.v, Proofs/DriverFacts.v proves that every execution of that driver is an accepted run of the machine "
+               "(run_tree_sim), so the machine theorems are theorems about the translated code (Proofs/DriverCode.v, `*_translated_*` theorems); every recorded real run is "
+               "also executed by the translated run() under vm_compute and must end in the machine's final state. Trusted there: the translator's binding tables (which python "
+               "construct is which primitive effect) and its list of calls that touch no modelled state.")
 
 
 def install(g, pid, *, text, note, technique, quick, thorough, mons=None, forces=None, nontrivial=None, rule="", extra_checks=None,
@@ -191,7 +197,10 @@ def install(g, pid, *, text, note, technique, quick, thorough, mons=None, forces
     g["FRONT_ENDS"] = list(front_ends)
     g["EXPLANATION"] = explanation or text
     g["ASSUMPTIONS"] = list(assumptions)
-    g["MANIFEST"] = {"text": text, "note": note + " " + COMMON_NOTE, "technique": technique}
+    g["MANIFEST"] = {"text": text + (" The same for the run() translated from the current sources (code_moment theorems)." if "driver" in front_ends and pid != "C11" else ""),
+                     "note": note + " " + COMMON_NOTE + (DRIVER_NOTE if "driver" in front_ends else ""),
+                     "technique": technique + ("; python-ast -> Gallina translation of tree.py and the deme run_metaepoch loops with a machine-checked simulation by the small-step machine" if "driver" in front_ends and pid != "C11" else
+                                               "; static population-freshness analysis in the driver translator" if pid == "C11" else "")}
 
 HIST_NOTE = ("History theorems are about the hand-written executable history machine (coq/Model/Hist.v), which REBUILDS every generation from the sources named by the events "
              "(carried from the previous generation / evaluated by the deme since it was completed / the seed); the tie: every recorded run is converted (genomes interned, exact "
